@@ -117,7 +117,46 @@ func rootIdent(e ast.Expr) string {
 }
 
 // assignsTo reports whether body assigns to (or takes the address of) one of the names.
-func assignsTo(body *ast.BlockStmt, names map[string]bool) bool {
+func assignsTo(body *ast.BlockStmt, names0 map[string]bool) bool {
+	// names re-declared by the leading var declarations of the body (the inliner's parameter
+	// bindings, `var buf []byte = buf`) are the body's own from there on
+	names := map[string]bool{}
+	for k, v := range names0 {
+		names[k] = v
+	}
+	for _, st := range body.List {
+		ds, ok := st.(*ast.DeclStmt)
+		if !ok {
+			break
+		}
+		gd, ok := ds.Decl.(*ast.GenDecl)
+		if !ok || gd.Tok != token.VAR {
+			break
+		}
+		for _, sp := range gd.Specs {
+			if vs, isVS := sp.(*ast.ValueSpec); isVS {
+				for _, v := range vs.Values {
+					// the initialisers themselves are still checked against the outer names
+					hitInit := false
+					ast.Inspect(v, func(n ast.Node) bool {
+						if u, isU := n.(*ast.UnaryExpr); isU && u.Op == token.AND && names[rootIdent(u.X)] {
+							hitInit = true
+						}
+						return !hitInit
+					})
+					if hitInit {
+						return true
+					}
+				}
+				for _, nm := range vs.Names {
+					delete(names, nm.Name)
+				}
+			}
+		}
+	}
+	if len(names) == 0 {
+		return false
+	}
 	hit := false
 	ast.Inspect(body, func(n ast.Node) bool {
 		switch x := n.(type) {
@@ -316,6 +355,31 @@ func deliteralize(name string, src []byte, counter *int) ([]byte, int) {
 								rep = "if " + a + " {\nreturn true\n}\nreturn " + y
 							}
 							edits = append(edits, textEdit{off(st.Pos()), off(st.End()), rep})
+							done = true
+							return
+						}
+					}
+				}
+				// `var ( a T = x; b U = IIFE )`: one declaration per spec first (the specs of a group are
+				// evaluated and come into scope in order anyway); the next round handles `var b U = IIFE`
+				if ds, isDecl := st.(*ast.DeclStmt); isDecl {
+					if gd, isGen := ds.Decl.(*ast.GenDecl); isGen && gd.Tok == token.VAR && len(gd.Specs) > 1 {
+						hasLit := false
+						for _, sp := range gd.Specs {
+							if vs, isVS := sp.(*ast.ValueSpec); isVS {
+								for _, v := range vs.Values {
+									if _, fl2 := iifeOf(v); fl2 != nil && delitEligible(fl2) {
+										hasLit = true
+									}
+								}
+							}
+						}
+						if hasLit {
+							var rep strings.Builder
+							for _, sp := range gd.Specs {
+								fmt.Fprintf(&rep, "var %s\n", string(src[off(sp.Pos()):off(sp.End())]))
+							}
+							edits = append(edits, textEdit{off(st.Pos()), off(st.End()), rep.String()})
 							done = true
 							return
 						}
